@@ -36,6 +36,10 @@
 //! the literal form none: with a literal the column-free conjunct folds to FALSE at planning time, with a placeholder it survives,
 //! PushDownFilter moves it below the global aggregate and the aggregate still emits its row. Signature (outcome-keyed): a route returns
 //! other rows and some SELECT filters by a column-free conjunct holding a parameter above a global aggregate (FROM clause or CTE).
+//! Known finding `nested-offset-only-limit` (C41 violation, root cause = the open C48 finding `offset-only-limit-sort-removed`): a derived table
+//! `(SELECT DISTINCT .., $1 AS k2 .. ORDER BY .. OFFSET 1)` skips another row than the same text with the literal, because the SortExec
+//! feeding a skip-only limit is dropped or kept depending on the plan shape. Signature (outcome-keyed): a route returns other rows and the
+//! statement nests a query with OFFSET n > 0 and no LIMIT.
 //! Observation (labels `numeric-type-drift` / `text-type-drift`, every route but PREPARE with declared types): an untyped placeholder makes the planner
 //! pick DOUBLE for `abs($1) + id UNION ..` (0.0 instead of 0) and a string type for `nullif($1, $2) UNION ..` ("0" instead of 0); the values agree
 //! as numbers / as text, so these are reported as labels, not as row differences.
@@ -714,6 +718,8 @@ fn evaluate_uncached(case: &Case, sig: &mut Option<String>) -> CaseResult {
                         }
                         if param_predicate_above_global_aggregate(&qpar) {
                             *sig = Some("param-predicate-above-global-aggregate".into());
+                        } else if nested_offset_only_limit(&qlit) {
+                            *sig = Some("nested-offset-only-limit".into());
                         } else if *route == "prepare" && obs.cse_placeholder {
                             *sig = Some("prepare-optimized-twice".into());
                         }
@@ -821,6 +827,18 @@ fn param_predicate_above_global_aggregate(par: &Query) -> bool {
             if below && filtered {
                 found = true;
             }
+        }
+    });
+    found
+}
+
+/// a nested query (derived table, CTE, subquery) with OFFSET n > 0 and no LIMIT: the engine may drop the sort feeding such a skip-only limit
+/// (open finding C48 `offset-only-limit-sort-removed`), and whether it does depends on the plan shape — which a placeholder changes
+fn nested_offset_only_limit(q: &Query) -> bool {
+    let mut found = false;
+    refsql::visit_queries(q, &mut |x| {
+        if !std::ptr::eq(x, q) && x.limit.is_none() && x.offset.is_some_and(|o| o > 0) {
+            found = true;
         }
     });
     found
